@@ -48,21 +48,24 @@ Fixpoint forall2b {A} (p : A -> A -> bool) (a b : list A) : bool :=
 Definition fmt_equivb (T : table) (o f : list token) : bool :=
   forall2b (tok_equivb T) (collapse o) (collapse f).
 
-(* sanity_check_format_result: `for i in range(len(o_tokens))` indexing f_tokens[i] *)
-Inductive sc_result := ScOk | ScBug (i : nat) | ScIndexError.
+(* sanity_check_format_result (after fix 7fc177c):
+     for i in range(min(len(o_tokens), len(f_tokens))): first differing position -> "Symbol i differs"
+     then, if the lengths differ -> "Symbol count differs: len(o) vs len(f)"; otherwise no error *)
+Inductive sc_result := ScOk | ScBug (i : nat) | ScCount (a b : nat).
 
-Fixpoint sc_loop (T : table) (i : nat) (o f : list token) : sc_result :=
-  match o with
-  | [] => ScOk
-  | a :: o' =>
-      match f with
-      | [] => ScIndexError                  (* f_tokens[i] with i >= len(f_tokens) *)
-      | b :: f' => if tok_equivb T a b then sc_loop T (S i) o' f' else ScBug i
-      end
+Fixpoint first_mismatch (T : table) (i : nat) (o f : list token) : option nat :=
+  match o, f with
+  | a :: o', b :: f' => if tok_equivb T a b then first_mismatch T (S i) o' f' else Some i
+  | _, _ => None
   end.
 
 Definition sanity_tokens (T : table) (o f : list token) : sc_result :=
-  sc_loop T 0 (collapse o) (collapse f).
+  match first_mismatch T 0 (collapse o) (collapse f) with
+  | Some i => ScBug i
+  | None =>
+      if length (collapse o) =? length (collapse f) then ScOk
+      else ScCount (length (collapse o)) (length (collapse f))
+  end.
 
 Inductive sanity := SanOrigNotTokenizable | SanFmtNotTokenizable | SanRes (r : sc_result).
 
